@@ -285,51 +285,61 @@ class C14:
         return None
 
     # ---- conformance: CLI and real server
-    def finish(self, ctx):
-        seed = ctx['seed']
-        self.init_worker()
-        d = os.path.join(core.scratch_dir(), 'cli')
+    def conformance_picks(self, seed):
         picks = []
         k = 97 + seed % 11
         for i, case in enumerate(self.cases('quick', seed)):
             if i % k == seed % k and not (case[0] == 'doc' and len(case) > 3):
                 picks.append(case)
         picks = picks[:24]
+        return [c + ['+server'] if i < 4 else c for i, c in enumerate(picks)]
+
+    def finish(self, ctx):
+        self.init_worker()
+        n = 0
+        viol = []
+        for case in self.conformance_picks(ctx['seed']):
+            k, vs = self.conformance_one(case)
+            n += k
+            viol += [(case, v) for v in vs]
+        return {'conformance_replays': n, 'viol': viol}
+
+    def conformance_one(self, case):
+        with_server = case[-1] == '+server'
+        if with_server:
+            case = case[:-1]
+        d = os.path.join(core.scratch_dir(), 'cli')
+        try:
+            tex, words, argv, opts, ml, thresh = source_for(case)
+        except cat.Invalid:
+            return 0, []
+        os.makedirs(d, exist_ok=True)
+        with open(os.path.join(d, 'd.tex'), 'w', encoding='utf-8') as f:
+            f.write(tex)
+        sess = shell.Session(argv + ['d.tex'], answer_all, cwd=d)
         viol = []
         n = 0
-        server_cases = []
-        for case in picks:
-            try:
-                tex, words, argv, opts, ml, thresh = source_for(case)
-            except cat.Invalid:
-                continue
-            os.makedirs(d, exist_ok=True)
-            with open(os.path.join(d, 'd.tex'), 'w', encoding='utf-8') as f:
-                f.write(tex)
-            sess = shell.Session(argv + ['d.tex'], answer_all, cwd=d)
-            for mode in MODES:
-                sess.cmdline.output = mode
-                sess.calls = []
-                out, err, code, exc = sess.report()
-                answers = {t: answer_all(t, None) for c, t in sess.calls}
-                rc, cout, cerr, args = shell.run_cli(argv + ['--output', mode, 'd.tex'], {}, answers, shell.lt_answer([]), d)
-                n += 1
-                if rc != 0 or cout.decode('utf-8') != out:
-                    viol.append((case, {'clause': 'in-process report is byte-identical to the CLI (conformance)', 'sig': 'C14:conformance:' + mode,
-                                        'detail': {'argv': argv, 'source': tex, 'rc': rc, 'cli': cout.decode('utf-8', 'replace')[:800],
-                                                   'in_process': out[:800], 'stderr': cerr[-300:]}}))
-            if len(server_cases) < 4:
-                server_cases.append((case, tex, argv, opts, sess))
-        # real server process
-        for case, tex, argv, opts, sess in server_cases:
+        for mode in MODES:
+            sess.cmdline.output = mode
+            sess.calls = []
+            out, err, code, exc = sess.report()
+            answers = {t: answer_all(t, None) for c, t in sess.calls}
+            rc, cout, cerr, args = shell.run_cli(argv + ['--output', mode, 'd.tex'], {}, answers, shell.lt_answer([]), d)
+            n += 1
+            if rc != 0 or cout.decode('utf-8') != out:
+                viol.append({'clause': 'in-process report is byte-identical to the CLI (conformance)', 'sig': 'C14:conformance:' + mode,
+                             'detail': {'argv': argv, 'source': tex, 'rc': rc, 'cli': cout.decode('utf-8', 'replace')[:800],
+                                        'in_process': (out or '')[:800], 'stderr': cerr[-300:]}})
+        if with_server:
+            sess.calls = []
             val, err, code, exc = sess.request({'language': [opts['lang']], 'text': [tex]})
             answers = {t: answer_all(t, None) for c, t in sess.calls}
             got = self.real_server(argv, tex, opts['lang'], answers, d)
             n += 1
             if got != val:
-                viol.append((case, {'clause': 'in-process server answer equals the answer of a real --as-server process',
-                                    'sig': 'C14:conformance:server', 'detail': {'argv': argv, 'source': tex, 'real': got, 'in_process': val}}))
-        return {'conformance_replays': n, 'viol': viol}
+                viol.append({'clause': 'in-process server answer equals the answer of a real --as-server process',
+                             'sig': 'C14:conformance:server', 'detail': {'argv': argv, 'source': tex, 'real': got, 'in_process': val}})
+        return n, viol
 
     def real_server(self, argv, tex, lang, answers, d):
         s = socket.socket()
